@@ -69,7 +69,7 @@ func (sc c07Sc) member(i int) string {
 // c07VisBatch renders a batch of visibility cases as one script.
 func c07VisBatch(nm c07Names, idx []int, cases []c07Case) string {
 	body := map[string][]string{}
-	var top []string
+	var top, traits []string
 	add := func(cls, s string) { body[cls] = append(body[cls], s) }
 	for _, i := range idx {
 		sc := cases[i].Sc
@@ -121,12 +121,16 @@ func c07VisBatch(nm c07Names, idx []int, cases []c07Case) string {
 		case "call":
 			stmt = pre + "$r = " + target + "();"
 		}
-		holder := map[string]string{"decl": nm.D, "closure": nm.D, "sub": nm.S, "grand": nm.G, "sibling": nm.X}[sc.Site]
+		holder := map[string]string{"decl": nm.D, "closure": nm.D, "sub": nm.S, "grand": nm.G, "sibling": nm.X, "shared-trait": nm.X}[sc.Site]
 		objNew := "new " + cls + "()"
 		var probe string
 		switch sc.Site {
 		case "outside":
 			probe = fmt.Sprintf("$o = %s;\ntry { %s echo \"\\nK%d|ok:\", $r, \"\\n\"; } catch (\\Throwable $e) { echo \"\\nK%d|denied:\", get_class($e), \"\\n\"; }", objNew, stmt, i, i)
+		case "shared-trait":
+			traits = append(traits, fmt.Sprintf("trait Tr%d {\n  public function c%d($o) { %s return $r; }\n}", i, i, stmt))
+			add(nm.D, fmt.Sprintf("  use Tr%d;", i))
+			add(nm.X, fmt.Sprintf("  use Tr%d;", i))
 		case "closure":
 			add(holder, fmt.Sprintf("  public function c%d($o) { $f = function() use ($o) { %s return $r; }; return $f(); }", i, stmt))
 		default:
@@ -137,6 +141,10 @@ func c07VisBatch(nm c07Names, idx []int, cases []c07Case) string {
 			if sc.Path == "this" {
 				setup = fmt.Sprintf("$h = new %s(); $o = $h;", holder)
 			}
+			if sc.Site == "shared-trait" {
+				// the same code runs in the declaring class first (allowed there), on another object
+				setup = fmt.Sprintf("try { $warm = new %s(); $warm->c%d(%s); } catch (\\Throwable $e) { }\necho \"\\n[warmed%d]\\n\";\n", nm.D, i, objNew, i) + setup
+			}
 			probe = fmt.Sprintf("%s\ntry { $r = $h->c%d($o); echo \"\\nK%d|ok:\", $r, \"\\n\"; } catch (\\Throwable $e) { echo \"\\nK%d|denied:\", get_class($e), \"\\n\"; }", setup, i, i, i)
 		}
 		top = append(top, probe)
@@ -145,6 +153,9 @@ func c07VisBatch(nm c07Names, idx []int, cases []c07Case) string {
 		}
 	}
 	var sb strings.Builder
+	for _, t := range traits {
+		sb.WriteString(t + "\n")
+	}
 	cls := func(name, ext string) {
 		fmt.Fprintf(&sb, "class %s%s {\n%s\n}\n", name, ext, strings.Join(body[name], "\n"))
 	}
@@ -166,7 +177,8 @@ var c07TypeName = map[string]string{"int": "int", "string": "string", "array": "
 var c07Default = map[string]string{"int": "0", "string": `""`, "array": "[]", "?int": "null", "int|string": "0", "?D": "null", "?I": "null"}
 var c07Value = map[string]string{"int": "5", "string": `"s"`, "float": "1.5", "bool": "true", "null": "null", "array": "[1]",
 	"objD": "new D0()", "objS": "new S0()", "objX": "new X0()", "objImpl": "new Impl0()",
-	"objImplSub": "new ImplSub0()", "objJImpl": "new JImpl0()", "objJImplSub": "new JImplSub0()"}
+	"objImplSub": "new ImplSub0()", "objJImpl": "new JImpl0()", "objJImplSub": "new JImplSub0()",
+	"objFakeD": "new \\Vendor\\Plugin\\D0()"}
 
 const c07TypeFixture = `interface J0 { function jm(); }
 interface I0 extends J0 { function im(); }
@@ -233,7 +245,8 @@ func c07TypeBatch(idx []int, cases []c07Case) string {
 			top = append(top, fmt.Sprintf("%s $c = function($p): %s { return $p; };\ntry { $r = $c($v); %s", v, t, okTail))
 		}
 	}
-	return c07TypeFixture + strings.Join(decl, "\n") + "\n" + strings.Join(top, "\n") + "\necho \"\\nEND\\n\";\n"
+	// a class with the same short name in another namespace, declared after the global code
+	return c07TypeFixture + strings.Join(decl, "\n") + "\n" + strings.Join(top, "\n") + "\necho \"\\nEND\\n\";\nnamespace Vendor\\Plugin;\nclass D0 { }\n"
 }
 
 func c07InstScript(shape, via string, pfx string) string {
@@ -296,6 +309,10 @@ func c07ParseVis(out string, i int, k c07Case) c07Obs {
 			peek = l[len(pp):]
 		}
 	}
+	// for the shared-trait site the same code ran in the declaring class first: only what follows counts
+	if w := strings.Index(out, fmt.Sprintf("[warmed%d]", i)); w >= 0 {
+		out = out[w:]
+	}
 	hit := strings.Contains(out, fmt.Sprintf("[hit%d]", i))
 	switch o.verdict {
 	case "ok":
@@ -333,6 +350,10 @@ func c07ParseType(out string, i int, k c07Case) c07Obs {
 		if strings.HasPrefix(l, pp) {
 			peek = l[len(pp):]
 		}
+	}
+	// for the shared-trait site the same code ran in the declaring class first: only what follows counts
+	if w := strings.Index(out, fmt.Sprintf("[warmed%d]", i)); w >= 0 {
+		out = out[w:]
 	}
 	hit := strings.Contains(out, fmt.Sprintf("[hit%d]", i))
 	if o.verdict == "ok" {
